@@ -6,7 +6,7 @@ explicit, every note carries its symbolic duration - so the expected result of l
 from fractions import Fraction
 
 FEATURES = ["pickup", "chord", "two_voices", "two_staves", "tie_barline", "tie_chain", "tie_cross_voice", "grace", "grace_chain", "grace_run_below", "underfilled_measures", "slur", "slur_chain", "slur_overlap", "slur_barline",
-            "tuplet", "dynamics", "wedge", "wedge_overlap", "dashes", "dashes_overlap", "part_name_of_two_lines", "words", "words_quantified", "constant_directions_of_three_families", "pedal", "pedal_barline", "pedal_change_inside_a_measure", "tempo", "tempo_mid", "tempo_dotted_units", "repeat", "repeat_inside_measures", "ending", "fermata_note", "fermata_barline", "fermata_inner_barline",
+            "tuplet", "dynamics", "every_dynamic_mark", "wedge", "wedge_overlap", "dashes", "dashes_overlap", "part_name_of_two_lines", "words", "words_quantified", "constant_directions_of_three_families", "pedal", "pedal_barline", "pedal_change_inside_a_measure", "tempo", "tempo_mid", "tempo_dotted_units", "repeat", "repeat_inside_measures", "ending", "fermata_note", "fermata_barline", "fermata_inner_barline",
             "articulation", "articulation_order", "fingering", "stem", "unpitched", "rests", "key_change", "ts_change", "clef_change", "divisions_change",
             "divisions_change_mid", "dotted", "page", "two_parts", "group", "nested_group", "nested_group_first", "voice_gap", "polyphony", "polyphony_two_voices", "polyphony_with_voices_1_and_3",
             "measure_names", "irregular_measure", "accidentals", "duplicate_ids"]
@@ -255,6 +255,20 @@ def build(features, pid="P1", seed=0):
         part.add(sc.ConstantLoudnessDirection("f"), B.t(m1 + 1))
         part.add(sc.ImpulsiveLoudnessDirection("sfz"), B.t(m2))
         part.add(sc.ConstantLoudnessDirection("pp", staff=(2 if "two_staves" in f else None)), B.t(m3))
+    if "every_dynamic_mark" in f:
+        # every level from pppppp to ffffff and n lasts until the next level; every accent-like mark (sf, sfz, fz, rf, fp, ...) stands at one
+        # instant (the classification is written out here, not taken from the library's tables)
+        levels = ["pppppp", "ppppp", "pppp", "ppp", "pp", "p", "mp", "mf", "f", "ff", "fff", "ffff", "fffff", "ffffff", "n"]
+        accents = ["fp", "pf", "rf", "rfz", "fz", "sf", "sffz", "sfp", "sfzp", "sfpp", "sfz"]
+        unit = Fraction(1, 4)
+        pos = Fraction(m1)
+        for k_ in range(max(len(levels), len(accents))):
+            if k_ < len(levels):
+                part.add(sc.ConstantLoudnessDirection(levels[k_]), B.t(pos))
+                pos += unit
+            if k_ < len(accents):
+                part.add(sc.ImpulsiveLoudnessDirection(accents[k_]), B.t(pos))
+                pos += unit
     if "wedge_overlap" in f:
         part.add(sc.IncreasingLoudnessDirection("crescendo", wedge=True), B.t(m1), B.t(m1 + 2))
         part.add(sc.DecreasingLoudnessDirection("diminuendo", wedge=True), B.t(m1 + 1), B.t(m2 + 2))
@@ -414,7 +428,8 @@ def catalogue(tier="quick"):
         # them comes first is not stated), and a grace chain that ends on a note whose id another note shares
         clash = {frozenset(x) for x in (("tempo", "tempo_dotted_units"), ("tempo_mid", "tempo_dotted_units"), ("pedal", "pedal_change_inside_a_measure"),
                                         ("pedal_barline", "pedal_change_inside_a_measure"), ("repeat", "repeat_inside_measures"), ("repeat_inside_measures", "ending"),
-                                        ("grace", "grace_run_below"), ("grace_chain", "grace_run_below"), ("grace_run_below", "duplicate_ids"))}
+                                        ("dynamics", "every_dynamic_mark"), ("dynamics_both_staves", "every_dynamic_mark"), ("constant_directions_of_three_families", "every_dynamic_mark"),
+                                        ("direction_inside_last_note", "every_dynamic_mark"), ("grace", "grace_run_below"), ("grace_chain", "grace_run_below"), ("grace_run_below", "duplicate_ids"))}
         for a, b in itertools.combinations(FEATURES, 2):
             if frozenset((a, b)) not in clash:
                 out.append((a + "+" + b, [a, b]))
